@@ -24,6 +24,8 @@ type bankEntry struct {
 	Old      string `json:"old"`
 	New      string `json:"new"`
 	Note     string `json:"note"`
+	// More: further (old, new) replacements in the same file, applied after the first one.
+	More [][2]string `json:"more,omitempty"`
 }
 
 type benignEntry struct {
@@ -167,6 +169,13 @@ func runVariant(dir, id string) int {
 		return 4
 	}
 	mod := strings.Replace(string(src), e.Old, e.New, 1)
+	for _, m := range e.More {
+		if strings.Count(mod, m[0]) != 1 {
+			fmt.Printf("SKIPPED: additional seed text occurs %d times in %s\n", strings.Count(mod, m[0]), e.File)
+			return 4
+		}
+		mod = strings.Replace(mod, m[0], m[1], 1)
+	}
 	p, err := LoadOverlay(dir, "", "", map[string][]byte{path: []byte(mod)})
 	if err != nil {
 		fmt.Println("NOCOMPILE:", err)
